@@ -266,6 +266,10 @@ def cross_scenarios(quick, seed, n=None, tag="cross"):
             if rnd.random() < 0.5:
                 t["words"] = [[8 * j, v] for j, v in enumerate(rnd.sample([{"region": "prin", "off": 64}, {"region": "code", "off": 16}, {"region": "data", "off": 32}, 7, 4097, {"self_stack": True, "off": 24},
                                                                           {"region_map_end": "prin", "off": 0}, {"region_map": "prin", "off": 0}], rnd.randrange(1, 4)), start=rnd.randrange(0, 10))]
+            if rnd.random() < 0.12:
+                t.pop("sp_off")
+                t["sp_abs_below"] = rnd.choice([8, 24, 2040, 2048, 3000])          # the stack pointer in the guard page / hole below the stack
+                t.pop("words", None)
             if rnd.random() < 0.15:
                 t["low_addr"] = 0x10000000 + 0x100000 * i
             if rnd.random() < 0.1:
